@@ -119,6 +119,16 @@ def run(ctx):
         if cls.startswith("err timeout phase=2"):
             dist["use_timeout_inconclusive"] = dist.get("use_timeout_inconclusive", 0) + 1   # slow evaluation of a huge loaded value: not a crash
             continue
+        if cls == "err abort" and c not in deep:
+            # the process died.  If the same image survives when every evaluation of the use phase is cut after 60 polls of the interrupt, what
+            # killed it is a recursion that polls on every level and never ends: a loaded function that reaches itself through a variable
+            # (defect D25, unbounded evaluation depth) — a listed finding, reported under its own name; anything else stays a violation
+            rr = ctx.run_lines_robust(h, ["deser"], [line], env={"HARNESS_LINE_TIMEOUT_S": "20", "VERIF_MEM_LIMIT_GB": "4", "HARNESS_USE_POLL_CAP": "60"})
+            if rr and rr[0].startswith("ok\t"):
+                dist["recursion_through_loaded_function"] = dist.get("recursion_through_loaded_function", 0) + 1
+                ctx.spec_failures.append({"stream": "images", "input": "loaded function recursing through a variable (stack overflow, stopped by a poll cap)", "impl": a[:120] + " image=" + line[:400],
+                                          "model": b[:60], "spec": "a context that loaded successfully can be evaluated against without crashing"})
+                continue
         if cls.startswith("panic") or cls == "err abort" or cls.startswith("err timeout"):
             ctx.spec_failures.append({"stream": "images", "input": deep.get(c, line[:4000]), "impl": a[:300], "model": b[:60],
                                       "spec": "reading variables from any byte string returns success or an error; it never panics, aborts or hangs"})
